@@ -143,8 +143,13 @@ func runC17(r *Report) {
 				r.Fail("R-C17-1", s.cmp.Pos(), "limit "+s.limit+" is compared with a separately loaded counter value: concurrent admissions at limit-1 all read the same value and all pass (decide on the result of the atomic Add instead)", key...)
 				continue
 			}
+			// a count obtained from a call that can fail is compared only where the call succeeded: a
+			// failed count must refuse, not let the request through with the zero value
+			if sig := c.Common().Signature(); sig.Results().Len() >= 2 && sig.Results().At(sig.Results().Len()-1).Type().String() == "error" {
+				r.Ob("R-C17-1", s.cmp.Pos(), ErrOK(s.cmp.Block(), c), "quota "+s.limit+" is decided only where the count ("+cal.Name+") was obtained without error (a failed count refuses the request instead of deciding on zero)", fn, "count-failure-refuses:"+s.limit)
+			}
 			// (c) storage count
-			if strings.HasPrefix(cal.Name, "Count") {
+			if strings.HasPrefix(cal.Name, "Count") || strings.HasPrefix(cal.Name, "count") {
 				r.Fail("R-C17-1", s.cmp.Pos(), "quota "+s.limit+" is decided on a count read from storage ("+cal.Name+") and the create happens later with nothing serialising the two: concurrent requests at limit-1 all pass", key...)
 				continue
 			}
